@@ -114,6 +114,9 @@ def modelledProfile : Profile.Prof := [
   ("Array_Concat", [(.chk, "len(obj)"), (.mut, "nitems+="), (.mut, "Array_Reserve_More"), (.chk, "foreach(obj)"), (.loop, "foreach item in obj"), (.mut, "Array_Alloc"), (.asg, ""), (.fin, "")]),
   ("Array_Assign", [(.ite, "self is obj"), (.ret, ""), (.fin, ""), (.call, "Array_Clear"), (.chk, "implements_method(obj, Iter, iter_type)"), (.chk, "iter_type(obj)"), (.mut, "type="), (.mut, "tsize="), (.mut, "nitems="), (.mut, "nslots="), (.chk, "implements_method(obj, Len, len)"), (.chk, "implements_method(obj, Get, get)"), (.ite, "implements_method(obj, Len, len) and implements_method(obj, Get, get)"), (.chk, "len(obj)"), (.mut, "nitems="), (.mut, "nslots="), (.ite, "a->nslots is 0"), (.mut, "data="), (.ret, ""), (.fin, ""), (.mut, "data="), (.loop, "i < a->nitems"), (.mut, "Array_Alloc"), (.chk, "get(obj, $I(i))"), (.asg, ""), (.fin, ""), (.els, ""), (.chk, "foreach(obj)"), (.loop, "foreach item in obj"), (.call, "Array_Push"), (.fin, ""), (.fin, "")]),
   ("Array_Clear", [(.loop, "i < a->nitems"), (.mut, "destruct"), (.fin, ""), (.mut, "free"), (.mut, "data="), (.mut, "nitems="), (.mut, "nslots=")]),
+  ("Array_Sort_Partition", [(.mut, "swap"), (.loop, "i < r"), (.call, "Array_Get"), (.chk, "f(Array_Get(a, $I(i)), Array_Item(a, r))"), (.ite, "f(Array_Get(a, $I(i)), Array_Item(a, r))"), (.mut, "swap"), (.fin, ""), (.fin, ""), (.mut, "swap"), (.ret, "")]),
+  ("Array_Sort_Part", [(.ite, "l < r"), (.call, "Array_Sort_Partition"), (.call, "Array_Sort_Part"), (.call, "Array_Sort_Part"), (.fin, "")]),
+  ("Array_Sort_By", [(.call, "Array_Sort_Part")]),
   ("List_At", [(.ite, "i < 0 or i >= (int64_t)l->nitems"), (.thr, "IndexOutOfBoundsError"), (.ret, ""), (.fin, ""), (.ite, "i <= (int64_t)(l->nitems / 2)"), (.loop, "i"), (.fin, ""), (.els, ""), (.loop, "i"), (.fin, ""), (.fin, ""), (.ret, "")]),
   ("List_Get", [(.chk, "c_int(key)"), (.call, "List_At"), (.ret, "")]),
   ("List_Set", [(.chk, "c_int(key)"), (.call, "List_At"), (.asg, "")]),
@@ -138,6 +141,9 @@ def modelledProfile : Profile.Prof := [
   ("Tuple_Resize", [(.ite, "header(self)->alloc is (var)AllocStack or header(self)->alloc is (var)AllocStatic"), (.thr, "ValueError"), (.fin, ""), (.ite, "n < m"), (.mut, "realloc"), (.mut, "items="), (.mut, "items="), (.els, ""), (.thr, "FormatError"), (.fin, "")]),
   ("Tuple_Concat", [(.chk, "len(obj)"), (.ite, "header(self)->alloc is (var)AllocStack or header(self)->alloc is (var)AllocStatic"), (.thr, "ValueError"), (.fin, ""), (.mut, "realloc"), (.mut, "items="), (.chk, "foreach(obj)"), (.loop, "foreach item in obj"), (.mut, "items="), (.fin, ""), (.mut, "items=")]),
   ("Tuple_Assign", [(.chk, "implements_method(obj, Len, len)"), (.chk, "implements_method(obj, Get, get)"), (.ite, "implements_method(obj, Len, len) and implements_method(obj, Get, get)"), (.chk, "len(obj)"), (.ite, "header(self)->alloc is (var)AllocStack or header(self)->alloc is (var)AllocStatic"), (.thr, "ValueError"), (.fin, ""), (.mut, "realloc"), (.mut, "items="), (.loop, "i < nargs"), (.chk, "get(obj, $I(i))"), (.mut, "items="), (.fin, ""), (.mut, "items="), (.els, ""), (.chk, "foreach(obj)"), (.loop, "foreach item in obj"), (.call, "Tuple_Push"), (.fin, ""), (.fin, "")]),
+  ("Tuple_Sort_Partition", [(.mut, "Tuple_Swap"), (.loop, "i < r"), (.chk, "f(t->items[i], t->items[r])"), (.ite, "f(t->items[i], t->items[r])"), (.mut, "Tuple_Swap"), (.fin, ""), (.fin, ""), (.mut, "Tuple_Swap"), (.ret, "")]),
+  ("Tuple_Sort_Part", [(.ite, "l < r"), (.call, "Tuple_Sort_Partition"), (.call, "Tuple_Sort_Part"), (.call, "Tuple_Sort_Part"), (.fin, "")]),
+  ("Tuple_Sort_By", [(.call, "Tuple_Sort_Part")]),
   ("Table_Get", [(.ite, "key >= t->data and ((char*)key) < ((char*)t->data) + t->nslots * Table_Step(self)"), (.ite, "key is Table_Key(t, i) and Table_Key_Hash(t, i) isnt 0"), (.ret, ""), (.fin, ""), (.fin, ""), (.call, "cast"), (.ite, "t->nslots is 0"), (.thr, "KeyError"), (.fin, ""), (.chk, "hash(key)"), (.loop, "true"), (.ite, "h is 0 or j > Table_Probe(t, i, h)"), (.thr, "KeyError"), (.fin, ""), (.chk, "eq(Table_Key(t, i), key)"), (.ite, "eq(Table_Key(t, i), key)"), (.ret, ""), (.fin, ""), (.fin, ""), (.ret, "")]),
   ("Table_Set", [(.ite, "t->nslots is 0"), (.mut, "Table_Rehash"), (.fin, ""), (.call, "Table_Set_Move"), (.mut, "Table_Resize_More")]),
   ("Table_Set_Move", [(.call, "cast"), (.call, "cast"), (.chk, "hash(key)"), (.mut, "memset"), (.mut, "memset"), (.ite, "move"), (.mut, "memcpy"), (.mut, "memcpy"), (.mut, "memcpy"), (.els, ""), (.mut, "memcpy"), (.asg, ""), (.asg, ""), (.fin, ""), (.loop, "true"), (.ite, "h is 0"), (.mut, "memcpy"), (.mut, "nitems++"), (.ret, ""), (.fin, ""), (.chk, "eq(Table_Key(t, i), Table_Swapspace_Key(t, t->sspace0))"), (.ite, "eq(Table_Key(t, i), Table_Swapspace_Key(t, t->sspace0))"), (.mut, "destruct"), (.mut, "destruct"), (.mut, "memcpy"), (.ret, ""), (.fin, ""), (.ite, "j > p"), (.mut, "memcpy"), (.mut, "memcpy"), (.mut, "memcpy"), (.fin, ""), (.fin, "")]),
@@ -155,7 +161,7 @@ def modelledProfile : Profile.Prof := [
   ("String_Rem", [(.chk, "c_str(obj)"), (.ite, "pos is NULL"), (.thr, "ValueError"), (.ret, ""), (.fin, ""), (.mut, "memmove")]),
   ("String_Resize", [(.ite, "header(self)->alloc is (var)AllocStack or header(self)->alloc is (var)AllocStatic"), (.thr, "ValueError"), (.fin, ""), (.mut, "realloc"), (.mut, "val="), (.ite, "n > m"), (.mut, "memset"), (.els, ""), (.mut, "val="), (.fin, "")]),
   ("String_Concat", [(.ite, "header(self)->alloc is (var)AllocStack or header(self)->alloc is (var)AllocStatic"), (.thr, "ValueError"), (.fin, ""), (.chk, "c_str(obj)"), (.mut, "realloc"), (.mut, "val="), (.chk, "c_str(obj)"), (.mut, "strcat")]),
-  ("String_Assign", [(.chk, "c_str(obj)"), (.ite, "header(self)->alloc is (var)AllocStack or header(self)->alloc is (var)AllocStatic"), (.thr, "ValueError"), (.fin, ""), (.mut, "realloc"), (.mut, "val="), (.mut, "strcpy")]),
+  ("String_Assign", [(.chk, "c_str(obj)"), (.ite, "val is s->val"), (.ret, ""), (.fin, ""), (.ite, "header(self)->alloc is (var)AllocStack or header(self)->alloc is (var)AllocStatic"), (.thr, "ValueError"), (.fin, ""), (.mut, "realloc"), (.mut, "val="), (.mut, "strcpy")]),
   ("String_Format_To", [(.ite, "size < 0"), (.ret, ""), (.fin, ""), (.ite, "header(self)->alloc is (var)AllocStack or header(self)->alloc is (var)AllocStatic"), (.thr, "ValueError"), (.fin, ""), (.mut, "realloc"), (.mut, "val="), (.ret, "")]),
   ("Range_Len", [(.ite, "r->step == 0"), (.ret, ""), (.fin, ""), (.ite, "r->stop <= r->start"), (.ret, ""), (.fin, ""), (.ite, "r->step > 0"), (.ret, ""), (.fin, ""), (.ite, "r->step < 0"), (.ret, ""), (.fin, ""), (.ret, "")]),
   ("Range_Get", [(.call, "Range_Len"), (.chk, "c_int(key)"), (.ite, "r->step > 0 and i >= 0 and i < n"), (.mut, "val="), (.ret, ""), (.fin, ""), (.ite, "r->step < 0 and i >= 0 and i < n"), (.mut, "val="), (.ret, ""), (.fin, ""), (.thr, "IndexOutOfBoundsError"), (.ret, "")]),
@@ -165,7 +171,8 @@ def modelledProfile : Profile.Prof := [
   ("cast", [(.chk, "instance(self, Cast)"), (.ite, "c and c->cast"), (.ret, ""), (.fin, ""), (.chk, "type_of(self)"), (.ite, "type_of(self) is type"), (.ret, ""), (.els, ""), (.chk, "type_of(self)"), (.thr, "ValueError"), (.ret, ""), (.fin, "")]),
   ("Type_Method_At_Offset", [(.chk, "Type_Instance(self, cls)"), (.ite, "inst is NULL"), (.thr, "ClassError"), (.ret, ""), (.fin, ""), (.ite, "meth is NULL"), (.thr, "ClassError"), (.ret, ""), (.fin, ""), (.ret, "")]),
   ("dealloc", [(.chk, "instance(self, Alloc)"), (.ite, "a and a->dealloc"), (.ret, ""), (.fin, ""), (.ite, "self is NULL"), (.thr, "ResourceError"), (.fin, ""), (.ite, "header(self)->alloc is (var)AllocStatic"), (.thr, "ResourceError"), (.fin, ""), (.ite, "header(self)->alloc is (var)AllocStack"), (.thr, "ResourceError"), (.fin, ""), (.ite, "header(self)->alloc is (var)AllocData"), (.thr, "ResourceError"), (.fin, ""), (.chk, "type_of(self)"), (.loop, "i < (sizeof(struct Header) + s) / sizeof(var)"), (.mut, "[]="), (.fin, ""), (.mut, "free")]),
-  ("assign", [(.chk, "instance(self, Assign)"), (.ite, "a and a->assign"), (.ret, ""), (.fin, ""), (.chk, "type_of(self)"), (.chk, "type_of(self)"), (.chk, "type_of(obj)"), (.ite, "type_of(self) is type_of(obj) and s"), (.mut, "memcpy"), (.ret, ""), (.fin, ""), (.chk, "type_of(obj)"), (.chk, "type_of(self)"), (.thr, "TypeError"), (.ret, "")])]
+  ("assign", [(.chk, "instance(self, Assign)"), (.ite, "a and a->assign"), (.ret, ""), (.fin, ""), (.chk, "type_of(self)"), (.chk, "type_of(self)"), (.chk, "type_of(obj)"), (.ite, "type_of(self) is type_of(obj) and s"), (.mut, "memcpy"), (.ret, ""), (.fin, ""), (.chk, "type_of(obj)"), (.chk, "type_of(self)"), (.thr, "TypeError"), (.ret, "")]),
+  ("print_to_with", [(.loop, "true"), (.ite, "*fmt is '\\0'"), (.fin, ""), (.loop, "*fmt isnt '\\0' and *fmt isnt '%'"), (.fin, ""), (.ite, "start isnt fmt"), (.mut, "memcpy"), (.mut, "fmt_buf[]="), (.mut, "format_to"), (.ite, "off < 0"), (.thr, "FormatError"), (.fin, ""), (.fin, ""), (.ite, "*fmt is '%' && *(fmt+1) is '%'"), (.mut, "format_to"), (.ite, "off < 0"), (.thr, "FormatError"), (.fin, ""), (.fin, ""), (.loop, "not strchr(\"diuoxXfFeEgGaAxcsp$\", *fmt)"), (.fin, ""), (.ite, "start isnt fmt"), (.mut, "memcpy"), (.mut, "fmt_buf[]="), (.chk, "len(args)"), (.ite, "index >= len(args)"), (.thr, "FormatError"), (.fin, ""), (.chk, "get(args, $I(index))"), (.ite, "*fmt is '$'"), (.mut, "show_to"), (.fin, ""), (.ite, "*fmt is 's'"), (.chk, "c_str(a)"), (.mut, "format_to"), (.ite, "off < 0"), (.thr, "FormatError"), (.fin, ""), (.fin, ""), (.ite, "strchr(\"diouxX\", *fmt)"), (.chk, "c_int(a)"), (.mut, "format_to"), (.ite, "off < 0"), (.thr, "FormatError"), (.fin, ""), (.fin, ""), (.ite, "strchr(\"fFeEgGaA\", *fmt)"), (.chk, "c_float(a)"), (.mut, "format_to"), (.ite, "off < 0"), (.thr, "FormatError"), (.fin, ""), (.fin, ""), (.ite, "*fmt is 'c'"), (.chk, "c_int(a)"), (.mut, "format_to"), (.ite, "off < 0"), (.thr, "FormatError"), (.fin, ""), (.fin, ""), (.ite, "*fmt is 'p'"), (.mut, "format_to"), (.ite, "off < 0"), (.thr, "FormatError"), (.fin, ""), (.fin, ""), (.fin, ""), (.thr, "FormatError"), (.fin, ""), (.mut, "free"), (.ret, "")])]
 
 /-- functions in which every check precedes every mutation — their raising paths leave the object untouched by construction -/
 def orderedFns : List String :=
@@ -185,10 +192,42 @@ def orderedFns : List String :=
     Tree_Set assign the value after the key — both were `cast` first, and the first `assign` goes to the swap space / a node that
     is not linked yet; Table_Set rehashes a slot-less table before `Table_Set_Move` casts (`C12_failure_atomic_table` states
     exactly what can differ); Slice_Get / Zip_Get write their scratch Int / values Tuple before the `get` on the base
-    (`Obj.exact`, `Obj.view`). -/
+    (`Obj.exact`, `Obj.view`).  Finding KF-C12-sort-partial: `Tuple_Sort_Partition` / `Array_Sort_Partition` exchange elements (`Tuple_Swap`
+    / `swap`) and then call the comparison `f` (the `*_Sort_Part` / `*_Sort_By` functions inherit it: `Tup.sort`, `Arr.sort`).
+    Finding F29: `print_to_with` writes a segment (`format_to`) and then validates the next argument (`Str.printLoop`). -/
 def unorderedFns : List String :=
   ["Array_Push", "Array_Push_At", "Array_Concat", "Array_Assign", "List_Concat", "List_Assign", "Tuple_Concat", "Tuple_Assign",
-   "Table_Set", "Table_Set_Move", "Table_Assign", "Tree_Set", "Tree_Assign", "Slice_Get", "Zip_Get"]
+   "Table_Set", "Table_Set_Move", "Table_Assign", "Tree_Set", "Tree_Assign", "Slice_Get", "Zip_Get",
+   "Array_Sort_Partition", "Array_Sort_Part", "Array_Sort_By", "Tuple_Sort_Partition", "Tuple_Sort_Part", "Tuple_Sort_By",
+   "print_to_with"]
+
+/-! ### two single guards the model depends on, read from the generated token lists -/
+
+/-- `String_Assign` (fix 744a45f): the function begins `c_str(obj)`; `if (val is s->val) { return; }` — the self-assignment guard
+    comes before the allocation check, before every `throw` and before every mutation (`Str.assignSelf` is a no-op that cannot
+    raise exactly because of this) -/
+def selfGuardFirst (prof : Profile.Prof) : Bool :=
+  match prof.lookup "String_Assign" with
+  | some ((.chk, "c_str(obj)") :: (.ite, "val is s->val") :: (.ret, _) :: (.fin, _) :: _) => true
+  | _ => false
+
+/-- in a token list with the CELLO_MEMORY_CHECK regions kept: directly after `s->val = realloc(…)` (`mut realloc`, `mut val=`) comes
+    `if (s->val is NULL) throw(OutOfMemoryError, …)` — nothing is written through the new pointer before it has been tested -/
+def nullTestFollowsRealloc : List Profile.Tok → Bool
+  | (.mut, "realloc") :: (.mut, "val=") :: (.ite, "s->val is NULL") :: (.thr, "OutOfMemoryError") :: _ => true
+  | _ :: ts => nullTestFollowsRealloc ts
+  | [] => false
+
+/-- `String_Resize` tests the result of `realloc` before it writes through it (fix 63509f2); `false` also when the function is
+    missing from the memory profile -/
+def resizeChecksFirst (mprof : Profile.Prof) : Bool :=
+  match mprof.lookup "String_Resize" with
+  | some body => nullTestFollowsRealloc body
+  | none => false
+
+/-- the memory profile of `String_Resize` before fix 63509f2: `memset` / the terminator store between the `realloc` and the test -/
+def memoryProfileOld : Profile.Prof := [
+  ("String_Resize", [(.ite, "header(self)->alloc is (var)AllocStack or header(self)->alloc is (var)AllocStatic"), (.thr, "ValueError"), (.fin, ""), (.mut, "realloc"), (.mut, "val="), (.ite, "n > m"), (.mut, "memset"), (.els, ""), (.mut, "val="), (.fin, ""), (.ite, "s->val is NULL"), (.thr, "OutOfMemoryError"), (.fin, "")])]
 
 /-- `assign(slot, obj)` for a slot that is itself a container is the container's own `Assign` member -/
 def IK.assignFn : IK → String
